@@ -24,6 +24,9 @@ pub struct C16Case {
 static QUEUE_LOCK: Mutex<()> = Mutex::new(());
 
 fn fill(salts: &[String]) {
+    // a panic inside the library while it holds the queue lock (e.g. "SALTS is empty") poisons the
+    // mutex; clear that so the next case reports its own failure, not a PoisonError
+    sd_jwt_rs::utils::SALTS.clear_poison();
     let mut q = sd_jwt_rs::utils::SALTS.lock().unwrap_or_else(|e| e.into_inner());
     q.clear();
     for s in salts {
